@@ -102,6 +102,10 @@ func (api *API) decodeBasedOnType(ctx context.Context, b []byte, value reflect.V
 	switch value.Kind() {
 	case reflect.Ptr:
 		if valueType == bigIntPtrType {
+			b, typeCodeBytesRead, err := readTypeCode(ts, b)
+			if err != nil {
+				return 0, err
+			}
 			deseri := serializer.NewDeserializer(b)
 			if !value.CanAddr() {
 				// the *big.Int is the destination itself (Decode was called with it): the result is stored in the number
@@ -119,7 +123,7 @@ func (api *API) decodeBasedOnType(ctx context.Context, b []byte, value reflect.V
 					target.Set(decoded)
 				}
 
-				return deseri.Done()
+				return doneAfterTypeCode(deseri, typeCodeBytesRead)
 			}
 			addrValue := value.Addr()
 			//nolint:forcetypeassert // false positive, we already checked the type via reflect
@@ -127,7 +131,7 @@ func (api *API) decodeBasedOnType(ctx context.Context, b []byte, value reflect.V
 				return ierrors.Wrap(err, "failed to read big.Int from deserializer")
 			})
 
-			return deseri.Done()
+			return doneAfterTypeCode(deseri, typeCodeBytesRead)
 		}
 		elemType := valueType.Elem()
 
@@ -330,6 +334,10 @@ func (api *API) decodeInterface(
 func (api *API) decodeStruct(ctx context.Context, b []byte, value reflect.Value,
 	valueType reflect.Type, ts TypeSettings, opts *options) (int, error) {
 	if valueType == timeType {
+		b, typeCodeBytesRead, err := readTypeCode(ts, b)
+		if err != nil {
+			return 0, err
+		}
 		deseri := serializer.NewDeserializer(b)
 		addrValue := value.Addr()
 
@@ -338,7 +346,7 @@ func (api *API) decodeStruct(ctx context.Context, b []byte, value reflect.Value,
 			return ierrors.Wrap(err, "failed to read time from the deserializer")
 		})
 
-		return deseri.Done()
+		return doneAfterTypeCode(deseri, typeCodeBytesRead)
 	}
 	deseri := serializer.NewDeserializer(b)
 	if objectType := ts.ObjectType(); objectType != nil {
